@@ -166,7 +166,8 @@ type Cell struct {
 	As string `json:"as,omitempty"`
 	// Reuse: "" = a fresh Subprocess object; "re-setup" = the object was created with another (never ending) context and is
 	// set up again with the cell's context before the run; "second-run" = the object already went through a run of the same
-	// command that was stopped with Stop() (its group killed) before the cell's run starts
+	// command that was stopped with Stop() (its group killed) before the cell's run starts; "after-two-restarts" = the same,
+	// the earlier run having been restarted twice before it was stopped
 	Reuse string `json:"reuse,omitempty"`
 }
 
@@ -190,7 +191,7 @@ func newSubprocess(ctx context.Context, c Cell, loggers logs.Loggers, binPath st
 			return nil, err
 		}
 		return p, p.Setup(ctx, loggers, "", "", "", binPath, args...)
-	case "second-run":
+	case "second-run", "after-two-restarts":
 		p, err := subprocess.New(ctx, loggers, "", "", "", binPath, args...)
 		if err != nil {
 			return nil, err
@@ -199,6 +200,14 @@ func newSubprocess(ctx context.Context, c Cell, loggers logs.Loggers, binPath st
 			return nil, fmt.Errorf("first run: %w", err)
 		}
 		time.Sleep(150 * time.Millisecond)
+		if c.Reuse == "after-two-restarts" {
+			for i := 0; i < 2; i++ {
+				if err = p.Restart(); err != nil {
+					return nil, fmt.Errorf("first run, Restart #%d: %w", i+1, err)
+				}
+				time.Sleep(150 * time.Millisecond)
+			}
+		}
 		if err = p.Stop(); err != nil {
 			return nil, fmt.Errorf("first run, Stop: %w", err)
 		}
@@ -249,7 +258,7 @@ func grid(thorough bool) []Cell {
 		for _, st := range []string{"Execute", "Start"} {
 			for _, sp := range stopsOf(st) {
 				ins := instantsOf(s, thorough)
-				for _, re := range []string{"re-setup", "second-run"} {
+				for _, re := range []string{"re-setup", "second-run", "after-two-restarts"} {
 					cells = append(cells, Cell{s.Name, st, sp, ins[len(ins)-1], "", re})
 				}
 			}
